@@ -18,6 +18,8 @@ structure RInv (r : Ring) (t top : Nat) : Prop where
   lenpos : 0 < r.len
   lencap : r.len ≤ r.cap
   lentop : r.len ≤ top + 1
+  head : r.head = some (slotAt r.cap t (r.len - 1))
+  notfull : r.len < r.cap → t + 1 = r.len
   hts : ∀ k, k < r.len → (r.slots (slotAt r.cap t k)).height = top - k
   prevs : ∀ k, k < r.len →
     (r.slots (slotAt r.cap t k)).prev = if k + 1 < r.len then some (slotAt r.cap t (k + 1)) else none
@@ -104,7 +106,10 @@ theorem reset_inv (r : Ring) (hc : 0 < r.cap) (height id : Nat) : RInv (reset r 
     simp [reset, push, pushRaw, build, upd]
   have ht : (reset r height id).tail = some 0 := by
     simp [reset, push, pushRaw, build, upd]
-  refine ⟨ht, by rw [hcap]; exact hc, by rw [hl]; omega, by rw [hl, hcap]; omega, by rw [hl]; omega, ?_, ?_, ?_⟩
+  have hh : (reset r height id).head = some 0 := by
+    simp [reset, push, pushRaw, build, upd]
+  refine ⟨ht, by rw [hcap]; exact hc, by rw [hl]; omega, by rw [hl, hcap]; omega, by rw [hl]; omega,
+    by rw [hh, hl]; simp [slotAt], by intro _; rw [hl], ?_, ?_, ?_⟩
   · intro k hk; rw [hl] at hk; have : k = 0 := by omega
     subst this; simp [slotAt, hs]
   · intro k hk; rw [hl] at hk; have : k = 0 := by omega
@@ -115,16 +120,6 @@ theorem reset_inv (r : Ring) (hc : 0 < r.cap) (height id : Nat) : RInv (reset r 
 end Neutrino.HL
 
 namespace Neutrino.HL
-
-/-- STATED, NOT YET PROVED: `PushBack` of the next height preserves the ring invariant (the new
-tail is `next cap t`, the window grows or slides by one; a skip pointer into the slot that is
-overwritten becomes "reused by a higher node", and the new node's skip pointer is what
-`ancestor_correct` says about the ring before `buildAncestor`).  With `reset_inv` this would give
-`ancestor_correct` for every reachable ring; until then reachability is covered by the `hl`
-driver, which runs the real package against this model and the live-list oracle on every run. -/
-def push_preserves_RInv : Prop :=
-  ∀ (r : Ring) (t top id : Nat), RInv r t top →
-    RInv (push r (top + 1) id) (next r.cap t) (top + 1)
 
 /-! Non-vacuity: a ring of 3 slots, wrapped twice; the invariant holds and the walk is right. -/
 def exRing : Ring := run { cap := 3 } [.reset 5 1, .push 6 2, .push 7 3, .push 8 4, .push 9 5]
